@@ -315,10 +315,13 @@ pub fn run_c11(ctx: &Ctx, rep: &mut Report) {
         // single-octet corruption of every covered octet
         let limit = if ctx.thorough { msg.len() } else { msg.len().min(260) };
         let mut corrupted_ok = 0u64;
-        for pos in 2..limit {
+        'corrupt: for pos in 2..limit {
+          // three single-bit changes per octet (a field may shrink as well as grow); never bit 5, a
+          // pure ASCII-case change (names are compared and digested case-insensitively), and never
+          // bit 7 (a TSIG TTL with only its top bit set is the RFC 2181 "treat as zero" case)
+          for mask in [0x01u8, 0x02, 0x04] {
             let mut m = msg.clone();
-            // never a pure ASCII-case change (names are compared and digested case-insensitively)
-            m[pos] ^= 0x01;
+            m[pos] ^= mask;
             if pos >= tsig_start && pos < tsig_start + key_name.wire_len() {
                 // key-name octets: a length-octet change may re-frame the name; still must not verify
             }
@@ -326,7 +329,7 @@ pub fn run_c11(ctx: &Ctx, rep: &mut Report) {
             match panicmon::catch(|| verify(&m, &prior, time)) {
                 Err(p) => {
                     rep.violation(format!("c11:verify-corrupt:{}", p.signature()), format!("verification of a corrupted message panicked at {}: {} (offset {})", p.location, p.message, pos), witness(vec![("message", Json::hex(&m))]));
-                    break;
+                    break 'corrupt;
                 }
                 Ok(Ok(())) => {
                     // position of the corrupted octet relative to the message structure
@@ -338,14 +341,15 @@ pub fn run_c11(ctx: &Ctx, rep: &mut Report) {
                     } else {
                         rep.violation(
                             format!("c11:verify-corrupt:accepted:{}", region),
-                            format!("flipping bit 0 of octet {} ({}) still verifies", pos, region),
+                            format!("octet {} ({}) XOR {:#04x} still verifies", pos, region, mask),
                             witness(vec![("message", Json::hex(&m)), ("offset", Json::Int(pos as i128))]),
                         );
-                        break;
+                        break 'corrupt;
                     }
                 }
                 Ok(Err(_)) => corrupted_ok += 1,
             }
+          }
         }
         rep.hist_n("corruptions-rejected", corrupted_ok);
         // corrupted prior MAC
@@ -432,7 +436,16 @@ pub fn run_c10(ctx: &Ctx, rep: &mut Report) {
         let mut sc = c10_scenario(&mut rng);
         for _ in 0..24 {
             let key = rng.pick(&sc.cfg.keys).clone();
-            let spec = gen_query(&mut rng, &sc.names, &[C_IN], (1, 3));
+            let mut spec = gen_query(&mut rng, &sc.names, &[C_IN], (1, 3));
+            if rng.chance(1, 12) {
+                // ignorable additional records in front, so that ARCOUNT (with the TSIG record) is
+                // 255, 256, 257 or 512: the digest is computed over the message with ARCOUNT - 1
+                let target = *rng.pick(&[256usize, 256, 255, 257, 512]);
+                let n = target.saturating_sub(1 + spec.additionals.len());
+                for i in 0..n {
+                    spec.additionals.insert(0, RecSpec::new(NameEnc::Plain(RName::root()), T_TXT, C_IN, 0, vec![1, b'a' + (i % 26) as u8]));
+                }
+            }
             let (base, _) = encode(&spec);
             let variant = *rng.pick(&[Variant::Valid, Variant::Valid, Variant::Valid, Variant::Truncated, Variant::BadMac, Variant::UnknownKey, Variant::UnknownAlg, Variant::WrongAlgForKey, Variant::BadMacLen, Variant::Stale, Variant::Future, Variant::BadMacAndStale]);
             let now = now_unix();
